@@ -31,6 +31,13 @@ Definition model_run (k : case) : (store * cache) * list cout :=
 Definition model_outs (k : case) : list cout := map mask (snd (model_run k)).
 Definition show_case := model_outs.
 
+(* an unrecognised error text is recorded as RErr "?": compatible with any model rejection, never with a success *)
+Definition out_compat (model impl : out) : bool :=
+  match impl, model with
+  | RErr c, RErr m => if String.eqb c "?" then true else String.eqb c m
+  | _, _ => beq model impl
+  end.
+
 Definition same_ids (a b : list string) : bool := forallb (fun k => mem k b) a && forallb (fun k => mem k a) b.
 
 (* the dump lists st / mi ids in Go-sorted order on the implementation side and in gmap order on the model side *)
@@ -38,6 +45,10 @@ Definition cout_eqb (m i : cout) : bool :=
   match m, i with
   | XDump (s1, m1, v1, n1) q1, XDump (s2, m2, v2, n2) q2 =>
       same_ids s1 s2 && same_ids m1 m2 && beq v1 v2 && (n1 =? n2) && beq q1 q2
+  | XStore a, XStore b => out_compat a b
+  | XMutesI r1 v1 ids1 o1, XMutesI r2 v2 ids2 o2 =>
+      beq r1 r2 && (v1 =? v2) && beq ids1 ids2 && (length o1 =? length o2)%nat &&
+      forallb (fun ab => out_compat (fst ab) (snd ab)) (combine o1 o2)
   | _, _ => beq m i
   end.
 
